@@ -143,9 +143,19 @@ func (r *R) M() {}
 //«annFM»
 func M() {}
 
+// the same annotation as R.M on a method whose receiver type is spelled through an alias, in parentheses
+type RA = R
+
+//«annRM»
+func (r *(RA)) M2() {}
+
+// an unannotated method of an unnamed interface type that shares that method's name
+var Iface interface{ M2() }
+
 func Inside(t *T, r *R) {
 	t.M()
 	r.M()
+	r.M2()
 	M()
 }
 `
@@ -184,6 +194,8 @@ func Use(
 	dd.M() // W-FM
 	g := (*dd.T).M // W-MEXPR
 	_ = g
+	r.M2() // W-RM2
+	dd.Iface.M2() // W-IFACE
 }
 `
 
@@ -277,6 +289,8 @@ func ZZC04Names() {
 		{fw, nd.LineOf(c04SrcW, "W-RM"), "PKGO03", nd.And(on(annRM), nd.Not(wRM))},
 		{fw, nd.LineOf(c04SrcW, "W-FM"), "PKGO02", nd.And(on(annFM), nd.Not(wFM))},
 		{fw, nd.LineOf(c04SrcW, "W-MEXPR"), "PKGO03", nd.And(onTM, nd.Not(wTM))},
+		{fw, nd.LineOf(c04SrcW, "W-RM2"), "PKGO03", nd.And(on(annRM), nd.Not(wRM))},
+		// W-IFACE: nothing — the interface's method is not annotated
 		// an embedded field is a reference to the type like a named field
 		{"/zz/zzmod/x/d/emb.go", nd.LineOf(c04SrcWEmb, "W-EMB"), "PKGO01", nd.And(on(annT), nd.Not(wT))},
 		{"/zz/zzmod/x/d/emb.go", nd.LineOf(c04SrcWEmb, "W-EMBP"), "PKGO01", nd.And(on(annR), nd.Not(wR))},
